@@ -32,6 +32,10 @@ class HardTimeout(BaseException):
     """safety net: a thread did not get the baton back in time"""
 
 
+class Runaway(BaseException):
+    """a program keeps sending without ever blocking (more than Link.MAX_MESSAGES messages)"""
+
+
 class Sched:
     HARD = 20.0
 
@@ -192,6 +196,10 @@ class FakeLLC:
         if len(message) > tco.send_miu:
             self.link.oversize.append((self.side, len(message), tco.send_miu))
             raise nfc.llcp.Error(errno.EMSGSIZE)
+        self.link.nsent += 1
+        if self.link.nsent > self.link.MAX_MESSAGES:
+            self.link.runaway = self.side
+            raise Runaway()
         self.link.log[self.side].append(bytes(message))
         tco.peer.inbox.append(bytes(message))
         return True
@@ -224,7 +232,11 @@ class FakeLLC:
 
 
 class Link:
+    MAX_MESSAGES = 20000
+
     def __init__(self, link_miu=(2175, 2175), force_c2s=None, force_s2c=None):
+        self.nsent = 0
+        self.runaway = None
         self.sched = Sched()
         self.link_miu = {"c": link_miu[0], "s": link_miu[1]}
         self.force_c2s, self.force_s2c = force_c2s, force_s2c
@@ -253,6 +265,8 @@ class Link:
                         out[me] = ("deadlock",)
                     except HardTimeout:
                         out[me] = ("hard-timeout",)
+                    except Runaway:
+                        out[me] = ("runaway",)
                     except Exception as e:  # noqa
                         out[me] = ("exc", e)
                 finally:
